@@ -35,7 +35,11 @@ pub struct PoolDesc {
     pub range: Option<(u32, u32)>,
     /// (chaddr, address)
     pub reservations: Vec<(Vec<u8>, u32)>,
+    /// the policy also pushes some 700 octets of options (long domain name, portal URL, 30 NTP servers)
+    pub big: bool,
 }
+
+pub const BIG_OPTION_CODES: [u8; 3] = [15, 114, 42];
 
 #[derive(Clone, Debug)]
 pub struct ConfigDesc {
@@ -73,6 +77,11 @@ impl ConfigDesc {
                     Ipv4Addr::from(a),
                     Ipv4Addr::from(b)
                 );
+            }
+            if p.big {
+                s += &format!("    apply-domain-name: '{}.example'\n", "d".repeat(230));
+                s += &format!("    apply-captive-portal: 'https://portal.example/{}'\n", "p".repeat(220));
+                s += &format!("    apply-ntp-servers: [{}]\n", (1..=30).map(|k| format!("10.9.9.{}", k)).collect::<Vec<_>>().join(", "));
             }
             if !p.reservations.is_empty() {
                 s += "    policies:\n";
@@ -136,7 +145,32 @@ pub fn gen_world(r: &mut Rng) -> World {
     }
     // Hostile identity overlaps.
     if nclients >= 4 {
-        match r.below(4) {
+        match r.below(8) {
+            3 => {
+                // RFC 4361 identifiers (255, IAID, DUID): same DUID, different IAID = two interfaces of one host, two clients
+                let duid: Vec<u8> = [vec![0u8, *r.pick(&[1u8, 2, 3, 4])], r.bytes_in(6, 12)].concat();
+                clients[0].client_id = Some([vec![0xffu8, 0, 0, 0, 1], duid.clone()].concat());
+                clients[1].client_id = Some([vec![0xffu8, 0, 0, 0, 2], duid].concat());
+            }
+            4 => {
+                // identifiers differing in one octet at a random position
+                let mut a = r.bytes_in(2, 19);
+                clients[0].client_id = Some(a.clone());
+                let k = r.usize(a.len());
+                a[k] ^= 1 << r.below(8);
+                clients[1].client_id = Some(a);
+            }
+            5 => {
+                // one identifier is a proper prefix of the other / the other with a trailing NUL
+                let a = r.bytes_in(2, 10);
+                clients[0].client_id = Some(a.clone());
+                clients[1].client_id = Some([a, vec![if r.bool() { 0u8 } else { r.u8() }]].concat());
+            }
+            6 => {
+                // 01||MAC vs the bare MAC of ANOTHER client vs the same octets in upper/lower-case ASCII
+                clients[0].client_id = Some(b"Client-A".to_vec());
+                clients[1].client_id = Some(b"client-a".to_vec());
+            }
             0 => {
                 // same chaddr, different client ids: two distinct clients
                 clients[1].chaddr = clients[0].chaddr.clone();
@@ -178,6 +212,7 @@ pub fn gen_world(r: &mut Rng) -> World {
                     }
                 }
             }
+            p.big = r.chance(1, 4);
             pools.push(p);
         }
         configs.push(ConfigDesc { pools });
@@ -296,6 +331,7 @@ pub fn world_to_json(w: &World) -> Value {
         "configs": w.configs.iter().map(|c| json!(c.pools.iter().map(|p| json!({
             "range": p.range.map(|(a, b)| json!([ipj(a), ipj(b)])),
             "reservations": p.reservations.iter().map(|(m, a)| json!([hex(m), ipj(*a)])).collect::<Vec<_>>(),
+            "big": p.big,
         })).collect::<Vec<_>>())).collect::<Vec<_>>(),
     })
 }
@@ -335,6 +371,7 @@ pub fn world_from_json(v: &Value) -> Option<World> {
             pools.push(PoolDesc {
                 range,
                 reservations,
+                big: p["big"].as_bool().unwrap_or(false),
             });
         }
         configs.push(ConfigDesc { pools });
@@ -414,7 +451,9 @@ pub fn build_request_bytes(w: &World, m: &MsgOp) -> Vec<u8> {
         Sid::Foreign(x) => msg.options.push((54, x.to_be_bytes().to_vec())),
         Sid::BadLen(v) => msg.options.push((54, v.clone())),
     }
-    msg.options.push((55, vec![1, 3, 6, 28, 51, 54]));
+    if !m.extra.iter().any(|(c, _)| *c == 55) {
+        msg.options.push((55, vec![1, 3, 6, 28, 51, 54]));
+    }
     for (c, v) in &m.extra {
         if !msg.options.iter().any(|(k, _)| k == c) {
             msg.options.push((*c, v.clone()));
@@ -456,6 +495,9 @@ fn err_kind(e: &dhcp::DhcpError) -> String {
         InternalError(s) => format!("InternalError({})", s),
         OtherServer(_) => "OtherServer".into(),
         NoPolicyConfigured => "NoPolicyConfigured".into(),
+        // a tree under test may know further errors; the harness must still build against it
+        #[allow(unreachable_patterns)]
+        other => format!("Other({})", other),
     }
 }
 
@@ -753,7 +795,13 @@ impl<'a> HistoryRun<'a> {
 
         let kind_roll = r.below(100);
         let c13 = self.prop == Prop::C13;
-        let (mtype, opt50, ciaddr, sid) = if kind_roll < 40 {
+        let c18 = self.prop == Prop::C18;
+        let (mtype, opt50, ciaddr, sid) = if c18 && kind_roll >= 90 {
+            // RELEASE / DECLINE of the address the client was given last (whatever a server does with these, a restarted
+            // server must go on exactly like one that was not restarted)
+            let mine = self.last_addr.get(&client).copied().or(pick);
+            (Some(*r.pick(&[4u8, 7])), mine, if r.bool() { mine } else { None }, if r.bool() { Sid::Own } else { Sid::None })
+        } else if kind_roll < 40 {
             (Some(1u8), pick, None, Sid::None)
         } else if kind_roll < (if c13 { 70 } else { 92 }) {
             // REQUEST: selecting (opt50 + sid own), renewing (ciaddr), init-reboot (opt50, no sid)
@@ -811,6 +859,24 @@ impl<'a> HistoryRun<'a> {
             // the client asks for a lease time of its own (option 51 in the request)
             let v = *r.pick(&[0u32, 1, 60, 299, 300, 301, 3600, 86_400, 86_401, u32::MAX]);
             extra.push((51u8, v.to_be_bytes().to_vec()));
+        }
+        if r.chance(1, 3) {
+            // another parameter request list: asks for the large options some policies push, mostly WITHOUT listing 51/54
+            let mut prl: Vec<u8> = vec![1, 3, 6, 28];
+            prl.extend_from_slice(&BIG_OPTION_CODES);
+            if r.chance(1, 4) {
+                prl.push(51);
+            }
+            if r.chance(1, 4) {
+                prl.push(54);
+            }
+            r.shuffle(&mut prl);
+            extra.push((55u8, prl));
+        }
+        if r.chance(1, 4) {
+            // maximum DHCP message size
+            let v = *r.pick(&[0u16, 300, 548, 576, 590, 1024, 1500, 65_535]);
+            extra.push((57u8, v.to_be_bytes().to_vec()));
         }
         if c13 && r.chance(1, 4) {
             let code = *r.pick(&[51u8, 58, 59, 60, 77, 82, 116, 224]);
